@@ -1,6 +1,7 @@
 package main
 
 import (
+	"github.com/libsv/go-bk/bec"
 	"encoding/hex"
 	"fmt"
 	"math/big"
@@ -91,8 +92,22 @@ func init() {
 				return "err-new"
 			}
 			ok, _ := bscript.ValidateAddress(ad.AddressString)
-			return fmt.Sprintf("addr=%s pkh=%s s1=%s s2=%s s3=%s back=%s addrs=%s new=%s valid=%s", strHex(ad.AddressString), ad.PublicKeyHash,
-				hex.EncodeToString(*s1), hex.EncodeToString(*s2), hex.EncodeToString(*s3), hex.EncodeToString(back), strHex(addrs[0]), nw.PublicKeyHash, b01(ok))
+			// the routes that take a parsed key object (only for bytes that are a point on the curve)
+			aec, sec := "n/a", "n/a"
+			if pk, err := bec.ParsePubKey(key, bec.S256()); err == nil && len(key) == 33 {
+				if a2, err := bscript.NewAddressFromPublicKey(pk, mainnet); err == nil {
+					aec = strHex(a2.AddressString)
+				} else {
+					aec = "err"
+				}
+				if s4, err := bscript.NewP2PKHFromPubKeyEC(pk); err == nil {
+					sec = hex.EncodeToString(*s4)
+				} else {
+					sec = "err"
+				}
+			}
+			return fmt.Sprintf("addr=%s pkh=%s s1=%s s2=%s s3=%s back=%s addrs=%s new=%s valid=%s aec=%s sec=%s", strHex(ad.AddressString), ad.PublicKeyHash,
+				hex.EncodeToString(*s1), hex.EncodeToString(*s2), hex.EncodeToString(*s3), hex.EncodeToString(back), strHex(addrs[0]), nw.PublicKeyHash, b01(ok), aec, sec)
 		})
 	}
 	executors["C17.rt"] = func(a []string) string {
@@ -157,6 +172,17 @@ func genC15(e *emitter, tier string, seed uint64) {
 		}
 		if strings.Contains(res, "new=ok") {
 			e.note("str.accepted-by-new")
+		}
+	}
+	// real keys, among them keys whose X coordinate begins with one or two zero bytes (found by search)
+	for want := 0; want < 6; want++ {
+		for tries := 0; tries < 200000; tries++ {
+			k := genKey(r)
+			if want < 2 || (k.pubC[1] == 0 && (want < 5 || k.pubC[2] < 0x10)) {
+				e.run("C15.key", hex.EncodeToString(k.pubC), b01(want%2 == 0))
+				e.note("key.on-curve")
+				break
+			}
 		}
 	}
 	for i := 0; i < nAddr*8; i++ {
